@@ -1134,3 +1134,52 @@ def rule_json_escape_table(ctx, rep, rid: str) -> None:
             rep.ok(rid, "json.dumps", {"note": "strings are quoted by the host library"})
         else:
             rep.ok(rid, "own-routine", {"note": "strings are quoted by a routine of the repository without a folded table: its escapes are judged by the other rules of this property"})
+
+
+def rule_case_mapped_lookup_is_ascii(ctx, rep, rid: str, modules=("context", "values", "vm")) -> None:
+    """`table.find(ch.lower())` finds the ASCII letter k for U+212A KELVIN SIGN (and s for U+017F): the host's case
+    mapping brings characters from outside ASCII into it.  A digit or letter looked up after a case mapping is only an
+    ASCII digit or letter when the character was ASCII before the mapping."""
+    rep.rule(rid, "a character that is case-mapped (lower/upper/casefold) and then looked up in a table of ASCII digits and letters (find/index/in) is known to be ASCII before the mapping (an isascii() test on the path)", floor=1)
+    from ..util import atoms, known_conditions
+
+    n = 0
+    for f in ctx.tree.funcs:
+        if isinstance(f.node, ast.Lambda) or f.module.name not in modules:
+            continue
+        for c in f.own_nodes():
+            mapped = None
+            if isinstance(c, ast.Call) and isinstance(c.func, ast.Attribute) and c.func.attr in ("find", "index", "rfind") and c.args:
+                mapped = c.args[0]
+            elif isinstance(c, ast.Compare) and len(c.ops) == 1 and isinstance(c.ops[0], (ast.In, ast.NotIn)):
+                mapped = c.left
+            if not (isinstance(mapped, ast.Call) and isinstance(mapped.func, ast.Attribute) and mapped.func.attr in ("lower", "upper", "casefold") and isinstance(mapped.func.value, ast.Name)):
+                continue
+            table = c.func.value if isinstance(c, ast.Call) else c.comparators[0]
+            text = None
+            if isinstance(table, ast.Constant) and isinstance(table.value, str):
+                text = table.value
+            elif isinstance(table, ast.Name):
+                for s_ in list(f.own_nodes()) + list(f.module.tree.body):
+                    if isinstance(s_, ast.Assign) and len(s_.targets) == 1 and norm(s_.targets[0]) == table.id:
+                        v = s_.value
+                        while isinstance(v, ast.Subscript):
+                            v = v.value
+                        if isinstance(v, ast.Constant) and isinstance(v.value, str):
+                            text = v.value
+                        elif isinstance(v, ast.Name):
+                            for m_ in f.module.tree.body:
+                                if isinstance(m_, ast.Assign) and norm(m_.targets[0]) == v.id and isinstance(m_.value, ast.Constant) and isinstance(m_.value.value, str):
+                                    text = m_.value.value
+            if text is None or not text.isascii() or not any(ch.isalpha() for ch in text):
+                continue
+            n += 1
+            ch = mapped.func.value.id
+            key = f"{f.qual}:{short(c, 40)}"
+            guarded = any(norm(a) == f"{ch}.isascii()" and pol for t, p in known_conditions(c, f.node) for a, pol in atoms(t, p))
+            if guarded:
+                rep.ok(rid, key)
+            else:
+                rep.bad(rid, key, f"{f.qual} looks `{norm(mapped)}` up in an ASCII table (`{short(c, 50)}`) without knowing that `{ch}` is ASCII: the host maps U+212A KELVIN SIGN to k (and U+017F to s), so parseInt('\\u212a', 36) is 20 where ECMAScript stops at the first character that is not a digit of the radix", f"{f.module.rel}:{c.lineno}")
+    if n == 0:
+        rep.ok(rid, "no-case-mapped-lookup", {"note": "no table lookup of a case-mapped character in " + ", ".join(modules)})
